@@ -73,6 +73,9 @@ pub fn check_any(c: &AnyCase, obs: &mut Obs) -> Result<(), String> {
 
 /// independent scanner: `scheme:[//][userinfo@]host[:port][/?#...]`
 fn host_span_ok(url: &str, hostname: &str) -> bool {
+    // URL parsing removes ASCII tab and newline everywhere; the library keeps them after the host
+    let stripped: String = url.chars().filter(|c| !matches!(c, '\t' | '\n' | '\r')).collect();
+    let url = stripped.as_str();
     let Some(i) = url.find(':') else { return false };
     let rest = &url[i + 1..];
     let Some(rest) = rest.strip_prefix("//") else { return hostname.is_empty() };
@@ -153,10 +156,18 @@ pub struct UrlCase {
     /// C0-control / space padding around the URL and the source (stripped by URL parsing)
     #[serde(default)]
     pub pad: (String, String, String, String),
+    /// ASCII tab / LF / CR inserted at these (scaled) positions of the URL: URL parsing removes them
+    #[serde(default)]
+    pub ign: Vec<(u16, u8)>,
 }
 impl Case for UrlCase {
     fn smaller(&self) -> Vec<Self> {
         let mut v = vec![];
+        for i in 0..self.ign.len() {
+            let mut c = self.clone();
+            c.ign.remove(i);
+            v.push(c);
+        }
         if self.userinfo.is_some() {
             v.push(UrlCase { userinfo: None, ..self.clone() });
         }
@@ -200,6 +211,12 @@ pub fn check_url(c: &UrlCase, obs: &mut Obs) -> Result<(), String> {
         url.push_str(&format!(":{}", p));
     }
     url.push_str(&c.tail);
+    for (pos, which) in &c.ign {
+        let cs: Vec<char> = url.chars().collect();
+        let at = (*pos as usize * (cs.len() + 1)) >> 16;
+        let ch = ['\t', '\n', '\r'][*which as usize % 3];
+        url = cs[..at].iter().chain(std::iter::once(&ch)).chain(cs[at..].iter()).collect();
+    }
     // leading/trailing C0 controls and spaces are not part of a URL
     let url = format!("{}{}{}", c.pad.0, url, c.pad.1);
     let source = if c.source.is_empty() { String::new() } else { format!("{}{}{}", c.pad.2, c.source, c.pad.3) };
@@ -303,11 +320,17 @@ fn decode_url(t: &mut Tape) -> UrlCase {
     };
     let pads = ["", "", "", " ", "\t", "\n", "\u{0}", "\u{1}", "\u{1b}", "\u{1f}", " \u{0} ", "\r\n"];
     let pad = if t.chance(1, 4) { (t.choose(&pads).to_string(), t.choose(&pads).to_string(), t.choose(&pads).to_string(), t.choose(&pads).to_string()) } else { Default::default() };
-    UrlCase { scheme, userinfo, host: host.to_string(), host_ascii: ascii(host), reg: reg.to_string(), port, tail, source, source_reg, rtype: t.choose(gen::REQ_TYPES).to_string(), pad }
+    let mut ign = vec![];
+    if t.chance(1, 5) {
+        for _ in 0..(1 + t.pick(3)) {
+            ign.push((t.next(), t.pick(3) as u8));
+        }
+    }
+    UrlCase { scheme, userinfo, host: host.to_string(), host_ascii: ascii(host), reg: reg.to_string(), port, tail, source, source_reg, rtype: t.choose(gen::REQ_TYPES).to_string(), pad, ign }
 }
 
 pub fn check(ctx: &mut Ctx) {
-    ctx.rule = "any: (url, source, type) strings spliced from URL punctuation (: / // @ [ ] \\ ? # %), control characters, non-ASCII, scheme names, truncated/mutated generated URLs and arbitrary code points; Request::new, Request::preparsed and queries on the result must not panic, and for every URL that parses: is_supported <=> scheme in {http,https,ws,wss}, ws/wss => Websocket, the reported hostname is ASCII and is the host component found by an independent scanner in the normalised URL. url: constructive URLs (10 scheme spellings, 1 in 10 a generated RFC 3986 scheme of up to 95 bytes, x optional userinfo x 38 curated hosts with known registrable domains incl. multi-label and wildcard public suffixes, IP literals, IDN x optional port x path/query/fragment) with sources of the same / another registrable domain, absent or unparsable: hostname == expected punycoded host, third-party <=> registrable domains differ (or no usable source), scheme classification, and Request::preparsed(...) has equal public fields and equal verdicts/CSP on a 7-rule engine. Non-trivial (url) = userinfo/port/IDN/IP literal/multi-label suffix/deep subdomain, or a pair for which a 'last two labels' rule gives the wrong party.".into();
+    ctx.rule = "any: (url, source, type) strings spliced from URL punctuation (: / // @ [ ] \\ ? # %), control characters, non-ASCII, scheme names, truncated/mutated generated URLs and arbitrary code points; Request::new, Request::preparsed and queries on the result must not panic, and for every URL that parses: is_supported <=> scheme in {http,https,ws,wss}, ws/wss => Websocket, the reported hostname is ASCII and is the host component found by an independent scanner in the normalised URL. url: constructive URLs (10 scheme spellings, 1 in 10 a generated RFC 3986 scheme of up to 95 bytes, x optional userinfo x 38 curated hosts with known registrable domains incl. multi-label and wildcard public suffixes, IP literals, IDN x optional port x path/query/fragment; 1 case in 5 with 1-3 ASCII tab/LF/CR characters inserted anywhere in the URL, which URL parsing must ignore) with sources of the same / another registrable domain, absent or unparsable: hostname == expected punycoded host, third-party <=> registrable domains differ (or no usable source), scheme classification, and Request::preparsed(...) has equal public fields and equal verdicts/CSP on a 7-rule engine. Non-trivial (url) = userinfo/port/IDN/IP literal/multi-label suffix/deep subdomain, or a pair for which a 'last two labels' rule gives the wrong party.".into();
     ctx.assumptions = vec![
         "registrable domains of the curated hosts are fixed by construction from public-suffix facts (co.uk, com.au, github.io, blogspot.com, *.ck / !www.ck, *.kawasaki.jp / !city.kawasaki.jp, unknown TLD => last two labels, IP literal / single label => whole host)".into(),
         "expected punycode comes from the idna crate".into(),
